@@ -35,14 +35,20 @@ def run(ctx):
             body = rnd.choice(BODIES); name = 's' if ':s' in body else 'x'
             val = rnd.choice(VALS[name])
             sub = subst_var(body, name, val)
-            if kind == 'set': a = lib.new_cfg(select=['(set "%s" %s %s)=r' % (name, val, body)])
-            else: a = lib.new_cfg(set=['%s=%s' % (name, val)], select=['%s=r' % body])
+            # the name itself is arbitrary text without blanks, parentheses, comma or '=': dots, '#', '-' and letters outside ASCII are part of it
+            nn = rnd.choice([name, name, 'v.1', 'a#b', 'x-y', 'é', '_n', 'N2', 'v.name', 'x#0'])
+            rbody = re.sub(r':%s\b' % name, ':' + nn, body).replace('"%s"' % name, '"%s"' % nn) if name == 'x' else body
+            rn = nn if name == 'x' else name
+            if kind == 'set': a = lib.new_cfg(select=['(set "%s" %s %s)=r' % (rn, val, rbody)])
+            else: a = lib.new_cfg(set=['%s=%s' % (rn, val)], select=['%s=r' % rbody])
             b = lib.new_cfg(select=['%s=r' % sub])
         elif kind in ('define', 'premacro'):
             mac = rnd.choice(MACROS); body = rnd.choice(MBODIES)
             sub = body.replace('(@ "m")', mac).replace('@m', mac)
-            if kind == 'define': a = lib.new_cfg(select=['(define "m" %s %s)=r' % (mac, body)])
-            else: a = lib.new_cfg(set=['@m=%s' % mac], select=['%s=r' % body])
+            mn = rnd.choice(['m', 'm', 'mac.1', 'm#2', 'm-x', 'µ'])
+            rbody = body.replace('(@ "m")', '(@ "%s")' % mn).replace('@m', '@' + mn)
+            if kind == 'define': a = lib.new_cfg(select=['(define "%s" %s %s)=r' % (mn, mac, rbody)])
+            else: a = lib.new_cfg(set=['@%s=%s' % (mn, mac)], select=['%s=r' % rbody])
             b = lib.new_cfg(select=['%s=r' % sub])
         elif kind == 'select_pos':
             e = rnd.choice(['^.name', '.name', '(map .arr ^.name)', '^', '(size .arr)', '(| .arr ^.name)'])
